@@ -37,6 +37,7 @@ class RxWorld:
         self.end = z3.Function('rx.end', z3.IntSort(), z3.StringSort(), z3.IntSort(), z3.IntSort())
         self.gstart = z3.Function('rx.group_start', z3.IntSort(), z3.IntSort(), z3.StringSort(), z3.IntSort(), z3.IntSort())
         self.subf = z3.Function('rx.sub', z3.IntSort(), z3.StringSort(), z3.StringSort(), z3.StringSort())
+        self.sub_cb = z3.Function('rx.sub_callback', z3.IntSort(), z3.StringSort(), z3.StringSort())
         self.findall = z3.Function('rx.findall', z3.IntSort(), z3.StringSort(), z3.SeqSort(z3.StringSort()))
 
     def pid(self, pat: re.Pattern):
@@ -114,6 +115,30 @@ class RxWorld:
             st.pc.append(z3.Implies(guard, f))
         return res
 
+    def fresh_match_param(self, eng, name, pattern_qual, st):
+        """A parameter that is a match object of a known pattern: fresh subject/position plus the derived match facts."""
+        from .replay import resolve
+        pat = resolve(pattern_qual)
+        pid, info = self.pid(pat)
+        subj = z3.String(f'{name}.string')
+        pos = z3.Int(f'{name}.pos')
+        st.pc.append(z3.And(pos >= 0, pos <= z3.Length(subj)))
+        tail = z3.SubString(subj, pos, z3.Length(subj) - pos)
+        # the callback of re.sub receives matches found by searching: the match starts at pos (no anchoring claims)
+        lang = z3.Concat(info.lang, z3.Star(regexc.allchar()))
+        st.pc.append(z3.InRe(tail, lang))
+        e = self.end(z3.IntVal(pid), subj, pos)
+        st.pc.append(z3.And(e >= pos, e <= z3.Length(subj)))
+        anyg = []
+        for g, lang_g in info.groups.items():
+            gt = self.grp(z3.IntVal(pid), z3.IntVal(g), subj, pos)
+            ht = self.has(z3.IntVal(pid), z3.IntVal(g), subj, pos)
+            st.pc.append(z3.Implies(ht, z3.InRe(gt, lang_g)))
+            if g not in info.optional:
+                st.pc.append(ht)
+            anyg.append(ht)
+        return V(MATCH, MATCH._dt.mk(z3.IntVal(pid), subj, pos))
+
     def group(self, eng, m: V, g, st, node):
         pidt = z3.simplify(MATCH._dt.pid(m.term))
         if not z3.is_int_value(pidt):
@@ -175,6 +200,19 @@ def install(world):
                 pid, info = rx.pid(pat)
                 if isinstance(repl, V) and repl.t == STR:
                     return V(STR, rx.subf(z3.IntVal(pid), repl.term, subj.term))
+                if isinstance(repl, VPy) and isinstance(repl.obj, tuple) and repl.obj[0] == 'nested':
+                    # re.sub(callback, s): the callback is applied to every match of THIS pattern; its contract variant for
+                    # this pattern must exist, must be total on such matches and must not raise
+                    base_q = f'{eng.c.qual.split("@")[0]}.{repl.obj[1]}'
+                    variants = [c for q, c in eng.world.contracts.items() if q.split('@')[0] == base_q and
+                                any(_same_pattern(pq, pat) for pq in c.match_params.values())]
+                    if not variants:
+                        raise Unsupported(f're.sub callback {repl.obj[1]} has no contract variant for pattern {pat.pattern[:30]!r}', node)
+                    for c in variants:
+                        if c.raises:
+                            for exc in c.raises:
+                                eng.may_raise(st, exc, z3.Bool(fresh_name('cb.raises')), f'callback {repl.obj[1]}')
+                    return V(STR, rx.sub_cb(z3.IntVal(pid), subj.term))
                 raise Unsupported('re.sub with a callable replacement', node)
             if attr == 'findall':
                 subj = eng.coerce(args[0], STR, node)
@@ -208,3 +246,12 @@ def install(world):
     def axiom_rule(world_, formulas):
         return []
     return rx
+
+
+def _same_pattern(pattern_qual, pat):
+    from .replay import resolve
+    try:
+        p = resolve(pattern_qual)
+    except Exception:
+        return False
+    return p.pattern == pat.pattern and p.flags == pat.flags
